@@ -331,8 +331,14 @@ int main()
     }
     space->setBounds(b);
     if (N == 3)
-        space->registerDefaultProjection(
-            std::make_shared<ob::RealVectorOrthogonalProjectionEvaluator>(space.get(), std::vector<unsigned int>{0, 1}));
+    {
+        // R^3: the default projection would be a RANDOM linear map (drawn from the global RNG); an orthogonal projection
+        // on the first two components with the same default cell sizes (extent / 20) is registered instead.  Explicit
+        // cell sizes make it `userConfigured()`, otherwise StateSpace::setup() replaces it by the random one.
+        std::vector<double> cellSizes{(hi[0] - lo[0]) / 20.0, (hi[1] - lo[1]) / 20.0};
+        space->registerDefaultProjection(std::make_shared<ob::RealVectorOrthogonalProjectionEvaluator>(
+            space.get(), cellSizes, std::vector<unsigned int>{0, 1}));
+    }
     space->setStateSamplerAllocator([](const ob::StateSpace *sp) -> ob::StateSamplerPtr {
         return std::make_shared<RecSampler>(sp, sp->allocDefaultStateSampler());
     });
